@@ -8,7 +8,7 @@ import (
 	"time"
 )
 
-// Pipe (added for C03, used by internal/peer): a full-duplex in-memory
+// C03NewPipe (added for C03, used by internal/peer): a full-duplex in-memory
 // connection pair with UNBOUNDED buffering in each direction. Unlike net.Pipe a
 // Write never waits for the reader, so two endpoints that both write before
 // reading (a deviating scripted peer does that) cannot deadlock. Reads block
@@ -16,7 +16,7 @@ import (
 // reader's own end is closed (net.ErrClosed) or its read deadline passes
 // (os.ErrDeadlineExceeded).
 
-type pipeHalf struct {
+type c03Half struct {
 	mu     sync.Mutex
 	cond   *sync.Cond
 	buf    []byte
@@ -27,29 +27,29 @@ type pipeHalf struct {
 	total  int64
 }
 
-func newHalf() *pipeHalf {
-	h := &pipeHalf{}
+func c03NewHalf() *c03Half {
+	h := &c03Half{}
 	h.cond = sync.NewCond(&h.mu)
 	return h
 }
 
-// PipeConn is one end of a Pipe.
-type PipeConn struct {
-	rd, wr        *pipeHalf
+// C03PipeConn is one end of a Pipe.
+type C03PipeConn struct {
+	rd, wr        *c03Half
 	local, remote addr
 	once          sync.Once
 }
 
-// NewPipe returns the two ends; aAddr / bAddr are the addresses each end
+// C03NewPipe returns the two ends; aAddr / bAddr are the addresses each end
 // reports as its own (the other end reports it as RemoteAddr).
-func NewPipe(aAddr, bAddr string) (*PipeConn, *PipeConn) {
-	ab, ba := newHalf(), newHalf()
-	a := &PipeConn{rd: ba, wr: ab, local: addr(aAddr), remote: addr(bAddr)}
-	b := &PipeConn{rd: ab, wr: ba, local: addr(bAddr), remote: addr(aAddr)}
+func C03NewPipe(aAddr, bAddr string) (*C03PipeConn, *C03PipeConn) {
+	ab, ba := c03NewHalf(), c03NewHalf()
+	a := &C03PipeConn{rd: ba, wr: ab, local: addr(aAddr), remote: addr(bAddr)}
+	b := &C03PipeConn{rd: ab, wr: ba, local: addr(bAddr), remote: addr(aAddr)}
 	return a, b
 }
 
-func (c *PipeConn) Read(p []byte) (int, error) {
+func (c *C03PipeConn) Read(p []byte) (int, error) {
 	h := c.rd
 	h.mu.Lock()
 	defer h.mu.Unlock()
@@ -72,7 +72,7 @@ func (c *PipeConn) Read(p []byte) (int, error) {
 	}
 }
 
-func (c *PipeConn) Write(p []byte) (int, error) {
+func (c *C03PipeConn) Write(p []byte) (int, error) {
 	h := c.wr
 	h.mu.Lock()
 	defer h.mu.Unlock()
@@ -90,7 +90,7 @@ func (c *PipeConn) Write(p []byte) (int, error) {
 
 // Close closes this end: the peer reads EOF after the bytes already written,
 // local reads fail.
-func (c *PipeConn) Close() error {
+func (c *C03PipeConn) Close() error {
 	c.once.Do(func() {
 		c.wr.mu.Lock()
 		c.wr.wclose = true
@@ -108,7 +108,7 @@ func (c *PipeConn) Close() error {
 }
 
 // CloseWrite half-closes: the peer reads EOF, this end can still read.
-func (c *PipeConn) CloseWrite() {
+func (c *C03PipeConn) CloseWrite() {
 	c.wr.mu.Lock()
 	c.wr.wclose = true
 	c.wr.cond.Broadcast()
@@ -116,18 +116,18 @@ func (c *PipeConn) CloseWrite() {
 }
 
 // BytesWritten reports how many bytes this end has written so far.
-func (c *PipeConn) BytesWritten() int64 {
+func (c *C03PipeConn) BytesWritten() int64 {
 	c.wr.mu.Lock()
 	defer c.wr.mu.Unlock()
 	return c.wr.total
 }
 
-func (c *PipeConn) LocalAddr() net.Addr  { return c.local }
-func (c *PipeConn) RemoteAddr() net.Addr { return c.remote }
+func (c *C03PipeConn) LocalAddr() net.Addr  { return c.local }
+func (c *C03PipeConn) RemoteAddr() net.Addr { return c.remote }
 
-func (c *PipeConn) SetDeadline(t time.Time) error { return c.SetReadDeadline(t) }
+func (c *C03PipeConn) SetDeadline(t time.Time) error { return c.SetReadDeadline(t) }
 
-func (c *PipeConn) SetReadDeadline(t time.Time) error {
+func (c *C03PipeConn) SetReadDeadline(t time.Time) error {
 	h := c.rd
 	h.mu.Lock()
 	defer h.mu.Unlock()
@@ -151,4 +151,4 @@ func (c *PipeConn) SetReadDeadline(t time.Time) error {
 	return nil
 }
 
-func (c *PipeConn) SetWriteDeadline(t time.Time) error { return nil }
+func (c *C03PipeConn) SetWriteDeadline(t time.Time) error { return nil }
